@@ -33,6 +33,17 @@ for bid in ids:
             print(rows[-1], flush=True)
     finally:
         subprocess.run(f"git -C {REPO} checkout -- .", shell=True)
+if sys.argv[1:] and os.path.exists(ROOT + "/benign/RESULTS.md"):
+    # partial run: merge into the existing table (rows are keyed by change and property)
+    old = {}
+    for l in open(ROOT + "/benign/RESULTS.md"):
+        if re.match(r"\| [A-H]-b", l):
+            c = [x.strip().replace("\\|", "|") for x in l.strip().strip("|").split(" | ")]
+            c = tuple(c + [""] * (4 - len(c)))
+            old[(c[0], c[1])] = c
+    for r in rows:
+        old[(r[0], r[1])] = r
+    rows = [old[k] for k in sorted(old)]
 with open(ROOT + "/benign/RESULTS.md", "w") as f:
     f.write("# Behaviour-preserving changes vs. the checks of the properties anchored in the touched files\n\n| change | property | outcome | detail |\n|---|---|---|---|\n")
     for row in rows:
